@@ -86,6 +86,15 @@ func (e *Env) apply(f *Fault) {
 	e.Stats.FaultsFired++
 	e.Stats.FaultKinds[f.Act]++
 	desc := f.Act
+	if e.ExtraAct != nil && e.ExtraAct(f) {
+		for _, cn := range e.Conns {
+			if e.CutAfterAll > 0 && cn.CutAfter == 0 {
+				cn.CutAfter = e.CutAfterAll
+			}
+		}
+		e.Ev("fault %s", desc)
+		return
+	}
 	switch f.Act {
 	case "move":
 		if r := e.liveRegion(f.Table, f.Region); r != nil {
